@@ -16818,7 +16818,14 @@ func (msg *BGPUpdate) DecodeFromBytes(data []byte, options ...*MarshallingOption
 		err = p.DecodeFromBytes(data, options...)
 		if err != nil {
 			e = err.(*MessageError)
-			if e.(*MessageError).SubTypeCode == BGP_ERROR_SUB_ATTRIBUTE_FLAGS_ERROR {
+			// RFC 7606 Section 3.c: wrong flags make the UPDATE a withdraw of
+			// the prefixes it names. An MP_REACH_NLRI / MP_UNREACH_NLRI refused
+			// for its flags is not decoded, so the prefixes it names are not
+			// known: that calls for the stronger reaction of its own class
+			// (Section 5.3), like its other errors.
+			t := p.GetType()
+			if e.(*MessageError).SubTypeCode == BGP_ERROR_SUB_ATTRIBUTE_FLAGS_ERROR &&
+				t != BGP_ATTR_TYPE_MP_REACH_NLRI && t != BGP_ATTR_TYPE_MP_UNREACH_NLRI {
 				e.(*MessageError).ErrorHandling = ERROR_HANDLING_TREAT_AS_WITHDRAW
 			} else {
 				e.(*MessageError).ErrorHandling = getErrorHandlingFromPathAttribute(p.GetType())
